@@ -61,6 +61,8 @@ class Engine(object):
         self.decls = []       # (name, Sym) declared inputs of the current path
         self.obs = None
         self.uf_registry = {}  # z3 decl name -> python kernel name
+        self.dumps = []
+        self.dump_k = 0
 
     # ------------------------------------------------------------------ solver access
     def check(self, *extra):
@@ -86,6 +88,16 @@ class Engine(object):
         return self._model_src.model()
 
     def check_obligation(self, okz):
+        r = self._check_obligation(okz)
+        if r == z3.unsat and len(self.dumps) < self.dump_k:
+            # keep the discharged obligation as SMT-LIB2 for the second-solver cross-check of the driver
+            self.s.push()
+            self.s.add(z3.Not(okz))
+            self.dumps.append(self.s.to_smt2())
+            self.s.pop()
+        return r
+
+    def _check_obligation(self, okz):
         """is pc && !ok satisfiable?  First as one query under a short time limit; when the solver gives up
         (large nonlinear conjunctions), conjunct by conjunct: pc && !c_i for every top-level conjunct c_i."""
         conj = _conjuncts(okz)
